@@ -148,7 +148,7 @@ def base_coverage(runs, cov, cases, nontrivial, rule, validated):
 
 def check_C01(tier, seed, replay):
     res = Result()
-    runs, cov = machine_runs("C01", ["ops", "term"], tier, seed, replay,
+    runs, cov = machine_runs("C01", ["ops", "term", "rand"], tier, seed, replay,
                              require=("Lit", "Range", "Eoi", "AnyChar", "CallChar", "SeqFail", "AltFail", "OptFail",
                                       "CloIter", "CloStop", "NegOk", "NegFail", "PosOk", "PosFail", "RuleEnter"))
     cases = [c for r in runs for c in r.cases]
@@ -252,7 +252,7 @@ def monitor(res, prop, kind, cases, tier, formula, what):
 # ---------------------------------------------------------------------------------------------- C02
 def check_C02(tier, seed, replay):
     res, runs, cases = generic(
-        "C02", ["fields", "ws"], tier, seed, replay, [lambda p, c: None if c.crashed else props.p_tree(p, c)],
+        "C02", ["fields", "ws", "rand"], tier, seed, replay, [lambda p, c: None if c.crashed else props.p_tree(p, c)],
         "field-plumbing shapes (every depth-1 tree over field atoms, sampled deeper ones, hand-written shapes, "
         "override forms) x all inputs up to the bound; non-trivial = accepted input whose tree holds a match",
         lambda c: c.exp["ok"] and c.inp != [],
@@ -303,7 +303,7 @@ def check_C04(tier, seed, replay):
 # ---------------------------------------------------------------------------------------------- C05
 def check_C05(tier, seed, replay):
     res, runs, cases = generic(
-        "C05", ["memo"], tier, seed, replay,
+        "C05", ["memo", "randmemo"], tier, seed, replay,
         [lambda p, c: None if c.crashed else props.p_conforms(p, c), lambda p, c: None if c.crashed else props.p_tree(p, c, ranges=True)],
         "grammars with shared-prefix / nested / lookahead-reuse shapes x subsets of rules marked @memoize x all inputs "
         "up to the bound; non-trivial = a case of a variant with at least one memoized rule",
@@ -311,8 +311,6 @@ def check_C05(tier, seed, replay):
     # variant against variant on the real code
     judge_long(res, "C05", runs)
     long_cases = [c for r in runs for c in r.real_only]
-    for c in long_cases:
-        c.fam = "memo"
     groups = {}
     for c in cases + long_cases:
         groups.setdefault((c.g.meta["base"], tuple(c.inp)), []).append(c)
@@ -421,7 +419,7 @@ def check_C07(tier, seed, replay):
 # ---------------------------------------------------------------------------------------------- C08
 def check_C08(tier, seed, replay):
     res, runs, cases = generic(
-        "C08", ["ws"], tier, seed, replay,
+        "C08", ["ws", "rand"], tier, seed, replay,
         [lambda p, c: None if c.crashed else props.p_conforms(p, c),
          lambda p, c: None if c.crashed else props.p_tree(p, c, ranges=True)],
         "skipping and non-skipping rules calling and including each other, @string / @char / char / explicit Whitespace "
@@ -489,7 +487,7 @@ def p_ranges_nest(prop, c):
 
 def check_C09(tier, seed, replay):
     res, runs, cases = generic(
-        "C09", ["pos", "ws", "uni", "user"], tier, seed, replay, [p_ranges],
+        "C09", ["pos", "ws", "uni", "user", "rand"], tier, seed, replay, [p_ranges],
         "every subset of @position marks on struct / @string / enum-override rules, memoized and left-recursive "
         "replays, multi-byte characters and whitespace at rule boundaries x all inputs up to the bound; non-trivial = "
         "accepted input whose tree carries at least two ranges",
@@ -542,7 +540,7 @@ def p_error(prop, c):
 
 def check_C10(tier, seed, replay):
     res, runs, cases = generic(
-        "C10", ["ops", "fields", "memo", "lr", "user", "inc"], tier, seed, replay, [p_error],
+        "C10", ["ops", "fields", "memo", "lr", "user", "inc", "rand"], tier, seed, replay, [p_error],
         "all failing inputs of the operator, memo, left-recursion and user-function families (every template's error "
         "bookkeeping: optional, closure end, failed alternative, lookaheads, @char classes, check failures, externs); "
         "non-trivial = failing parse with failed attempts at two or more distinct offsets",
@@ -700,7 +698,7 @@ def p_tracing(prop, c):
 
 def check_C19(tier, seed, replay):
     res, runs, cases = generic(
-        "C19", ["ops", "memo", "lr", "user", "uni"], tier, seed, replay, [p_tracing],
+        "C19", ["ops", "memo", "lr", "user", "uni", "rand"], tier, seed, replay, [p_tracing],
         "operator, memo (cache hits), left-recursion (re-evaluation) and user-function (failing checks, externs) "
         "families x all inputs up to the bound, each parsed plainly, with a recording ParseTracer and with the "
         "library's IndentedTracer; non-trivial = at least two rule entries",
